@@ -212,7 +212,10 @@ fn main() {
             Ok(l) => l,
             Err(_) => break,
         };
-        let toks: Vec<&str> = line.split(' ').filter(|s| !s.is_empty()).collect();
+        let mut toks: Vec<&str> = line.split(' ').filter(|s| !s.is_empty()).collect();
+        if toks.first() == Some(&"NR") {
+            toks.remove(0); // this driver never restores a register after a panic
+        }
         let res = catch_unwind(AssertUnwindSafe(|| step(&mut st, &toks)));
         let s = match res {
             Ok(Some(s)) => s,
